@@ -783,7 +783,13 @@ func (x *Exec) callByContractFull(s *State, c *Contract, name string, pnames []s
 		s.assume(Eq(outs[0], mk(pureName(name), outs[0].Sort, as...)))
 	}
 	for _, e := range c.Ensures {
-		s.assume(x.trBool(e.Expr, envPost))
+		t := x.trBool(e.Expr, envPost)
+		if x.c != nil && e.Label != "" && x.c.Isolate[e.Label] != 0 {
+			// the calling contract isolates this labelled postcondition of the callee: only obligations of the same
+			// isolation group see it
+			x.tagHyps(t, e.Label)
+		}
+		s.assume(t)
 	}
 	return outs
 }
